@@ -3,6 +3,7 @@ package checks
 import (
 	"encoding/json"
 	"fmt"
+	"os"
 	"reflect"
 	"runtime/debug"
 	"strings"
@@ -306,7 +307,103 @@ func c16Check(strategy edsv1.ExtendedDaemonSetSpecStrategy, mode edsv1.ExtendedD
 	for i := 0; i < 3 && len(vs) == 0; i++ {
 		round()
 	}
+	// a second restart a while after the first one, the canary still running (its restart bookkeeping has a history now)
+	c.Advance(2 * time.Minute)
+	for _, p := range c.Pods() {
+		c.Restart(p.Namespace, p.Name, 0, "Error")
+	}
+	for i := 0; i < 2 && len(vs) == 0; i++ {
+		round()
+	}
+	if os.Getenv("VERIF_C16_DEBUG") != "" {
+		fmt.Println(strings.Join(c.Trace, "\n"))
+		for _, rs := range c.AllERS() {
+			fmt.Printf("RS %s conditions: %+v\n", rs.Name, rs.Status.Conditions)
+		}
+	}
 	return vs
+}
+
+// TestC16AllButOne: a spec that sets every defaultable field itself except one (or two). Such a spec may be recognised
+// as already defaulted and then never passes through defaulting: every field the reconcilers dereference must be
+// guarded or filled all the same. Complete enumeration of the single and double omissions, both default modes, with
+// the reconcile rounds of the lattice test.
+func TestC16AllButOne(t *testing.T) {
+	rec := evid.New("TestC16AllButOne", "C16", "a fully specified strategy (every rollingUpdate field, reconcileFrequency, canary with replicas, duration, noRestartsDuration, an (empty) nodeSelector, validationMode auto, autoPause and autoFail blocks with every field) minus one or two of its 17 optional fields - complete enumeration of the single and double omissions x controller default mode; oracle of TestC16Lattice (defaulting idempotent, recognised, fields filled, validation) and the reconcile rounds incl. two restarts of every pod some minutes apart while the canary runs: no panic; non-trivial = every case; distinct by the omitted fields")
+	full := func() edsv1.ExtendedDaemonSetSpecStrategy {
+		tr := true
+		i32 := func(v int32) *int32 { return &v }
+		d := func(x time.Duration) *metav1.Duration { return &metav1.Duration{Duration: x} }
+		s := edsv1.ExtendedDaemonSetSpecStrategy{ReconcileFrequency: d(10 * time.Second)}
+		s.RollingUpdate = edsv1.ExtendedDaemonSetSpecStrategyRollingUpdate{MaxUnavailable: gen.ParseIntOrPercent("1"), MaxPodSchedulerFailure: gen.ParseIntOrPercent("1"), MaxParallelPodCreation: i32(10),
+			SlowStartIntervalDuration: d(time.Minute), SlowStartAdditiveIncrease: gen.ParseIntOrPercent("5")}
+		s.Canary = &edsv1.ExtendedDaemonSetSpecStrategyCanary{Replicas: gen.ParseIntOrPercent("1"), Duration: d(10 * time.Minute), NoRestartsDuration: d(5 * time.Minute),
+			ValidationMode: edsv1.ExtendedDaemonSetSpecStrategyCanaryValidationModeAuto, NodeSelector: &metav1.LabelSelector{},
+			AutoPause: &edsv1.ExtendedDaemonSetSpecStrategyCanaryAutoPause{Enabled: &tr, MaxRestarts: i32(2), MaxSlowStartDuration: d(10 * time.Minute)},
+			AutoFail:  &edsv1.ExtendedDaemonSetSpecStrategyCanaryAutoFail{Enabled: &tr, MaxRestarts: i32(5), MaxRestartsDuration: d(time.Hour), CanaryTimeout: d(30 * time.Minute)}}
+		return s
+	}
+	omit := []struct {
+		name string
+		f    func(s *edsv1.ExtendedDaemonSetSpecStrategy)
+	}{
+		{"reconcileFrequency", func(s *edsv1.ExtendedDaemonSetSpecStrategy) { s.ReconcileFrequency = nil }},
+		{"maxUnavailable", func(s *edsv1.ExtendedDaemonSetSpecStrategy) { s.RollingUpdate.MaxUnavailable = nil }},
+		{"maxPodSchedulerFailure", func(s *edsv1.ExtendedDaemonSetSpecStrategy) { s.RollingUpdate.MaxPodSchedulerFailure = nil }},
+		{"maxParallelPodCreation", func(s *edsv1.ExtendedDaemonSetSpecStrategy) { s.RollingUpdate.MaxParallelPodCreation = nil }},
+		{"slowStartIntervalDuration", func(s *edsv1.ExtendedDaemonSetSpecStrategy) { s.RollingUpdate.SlowStartIntervalDuration = nil }},
+		{"slowStartAdditiveIncrease", func(s *edsv1.ExtendedDaemonSetSpecStrategy) { s.RollingUpdate.SlowStartAdditiveIncrease = nil }},
+		{"canary.replicas", func(s *edsv1.ExtendedDaemonSetSpecStrategy) { s.Canary.Replicas = nil }},
+		{"canary.duration", func(s *edsv1.ExtendedDaemonSetSpecStrategy) { s.Canary.Duration = nil }},
+		{"canary.noRestartsDuration", func(s *edsv1.ExtendedDaemonSetSpecStrategy) { s.Canary.NoRestartsDuration = nil }},
+		{"canary.validationMode", func(s *edsv1.ExtendedDaemonSetSpecStrategy) { s.Canary.ValidationMode = "" }},
+		{"canary.autoPause.enabled", func(s *edsv1.ExtendedDaemonSetSpecStrategy) { s.Canary.AutoPause.Enabled = nil }},
+		{"canary.autoPause.maxRestarts", func(s *edsv1.ExtendedDaemonSetSpecStrategy) { s.Canary.AutoPause.MaxRestarts = nil }},
+		{"canary.autoPause.maxSlowStartDuration", func(s *edsv1.ExtendedDaemonSetSpecStrategy) { s.Canary.AutoPause.MaxSlowStartDuration = nil }},
+		{"canary.autoFail.enabled", func(s *edsv1.ExtendedDaemonSetSpecStrategy) { s.Canary.AutoFail.Enabled = nil }},
+		{"canary.autoFail.maxRestarts", func(s *edsv1.ExtendedDaemonSetSpecStrategy) { s.Canary.AutoFail.MaxRestarts = nil }},
+		{"canary.autoFail.maxRestartsDuration", func(s *edsv1.ExtendedDaemonSetSpecStrategy) { s.Canary.AutoFail.MaxRestartsDuration = nil }},
+		{"canary.autoFail.canaryTimeout", func(s *edsv1.ExtendedDaemonSetSpecStrategy) { s.Canary.AutoFail.CanaryTimeout = nil }},
+	}
+	failed := false
+	ff := &firstFail{t: t, failed: &failed}
+	shard, shards := envInt("VERIF_SHARD", 0), envInt("VERIF_SHARDS", 1)
+	n := 0
+	for i := -1; i < len(omit); i++ {
+		for j := i; j < len(omit); j++ {
+			if j == i && i >= 0 {
+				continue
+			}
+			if i == -1 && j == -1 {
+				continue
+			}
+			for _, mode := range []edsv1.ExtendedDaemonSetSpecStrategyCanaryValidationMode{edsv1.ExtendedDaemonSetSpecStrategyCanaryValidationModeAuto, edsv1.ExtendedDaemonSetSpecStrategyCanaryValidationModeManual} {
+				n++
+				if n%shards != shard {
+					continue
+				}
+				s := full()
+				desc := "omitted: "
+				if i >= 0 {
+					omit[i].f(&s)
+					desc += omit[i].name + ", "
+				}
+				omit[j].f(&s)
+				desc += omit[j].name + fmt.Sprintf("; default mode %s", mode)
+				vs := c16Check(s, mode, "", true)
+				rec.Case(true, evid.FP(desc))
+				rec.Steps(1)
+				if rec.WantSample() {
+					rec.Sample(desc)
+				}
+				settle(ff, rec, vs, map[string]interface{}{"omitted": desc}, 1, desc)
+			}
+		}
+	}
+	rec.Exhaustive(true)
+	if !failed {
+		rec.Done()
+	}
 }
 
 func shortStack(s string) string {
